@@ -73,6 +73,14 @@ ssize_t h_getrandom(void *buf, size_t n, unsigned) {
     if (!g_kernel_mode && g_prehistory_enosys) { errno = ENOSYS; return -1; }
     if (!g_kernel_mode) { AMB.hit("getrandom"); AMB.rng.fill(buf, n); return (ssize_t) n; }
     if (g_getrandom_enosys) { errno = ENOSYS; return -1; }
+    if (n > 256) {
+        // getrandom(2) promises complete results only up to 256 bytes; a larger request returns what it had when a signal
+        // arrived.  Nothing failed: a caller that asks for more has to carry on from the short count
+        size_t k = 256 + (size_t) (mix64(g_src.pos, n) % (n - 256));
+        g_kfaults_fired["getrandom_large_request_cut_short"]++;
+        kernel_serve(buf, k);
+        return (ssize_t) k;
+    }
     if (g_kfault_pct && g_kfault.below(100) < g_kfault_pct) {
         // rarely a count shorter than requested (a kernel/emulation that interrupts small requests): like a device
         // failure, the acceptable reactions are terminating or a fully covered result
